@@ -36,7 +36,7 @@ import datetime as dt
 import itertools
 import math
 import struct
-from typing import Any, Dict, Iterable, List, Optional, Tuple
+from typing import Any, Callable, Dict, Iterable, List, Optional, Tuple
 
 from dsmc.report import HarnessError, Report, pmap
 from dsmc.tables import fresh_dir, use_local
@@ -101,6 +101,15 @@ TYPES: Dict[str, Dict[str, Any]] = {
                    wt_aware=dt.datetime(2000, 1, 1, tzinfo=UTC)),
         other=dt.datetime(9999, 12, 31, 23, 59, 59)),
 }
+# values that lie outside every file of the catalogue: padding for long IN lists (size thresholds in the pruner)
+N_FOREIGN = 39
+_FOREIGN_GEN: Dict[str, Callable[[int], Any]] = {
+    "long": lambda i: -(2**60) - i, "int": lambda i: -(2**31) + i, "double": lambda i: -1e300 - i * 1e290,
+    "float": lambda i: -1000.0 - i, "string": lambda i: "!%03d" % i, "date": lambda i: dt.date(1800, 1, 1) + dt.timedelta(days=i),
+    "timestamp": lambda i: dt.datetime(1800, 1, 1) + dt.timedelta(seconds=i),
+}
+for _t, _g in _FOREIGN_GEN.items():
+    TYPES[_t]["foreign"] = {"f%02d" % i: _g(i) for i in range(N_FOREIGN)}
 ALL_TYPES = list(TYPES)
 QUICK_E2E_TYPES = ["long", "double", "float", "string"]
 
@@ -141,7 +150,7 @@ def literal_value(tname: str, name: str) -> Any:
         return None
     if name == "nan":
         return NAN
-    for d in ("lits", "inexact", "wrong"):
+    for d in ("lits", "inexact", "wrong", "foreign"):
         if name in T.get(d, {}):
             return T[d][name]
     raise KeyError(name)
@@ -169,6 +178,14 @@ def symbolic_filters(tname: str, part: str) -> List[Tuple]:
             out.append(("set", op, (n,)))
         for x, y in pairs:
             out.append(("set", op, (x, y)))
+    foreign = tuple(TYPES[tname].get("foreign", {}))
+    if foreign:
+        # long value sets: one catalogue literal (or none) among 39 values that no file holds
+        hits = [n for n in typed if n != "nan"] if part != "e2e" else ["a", "b", "c"]
+        for op in ("in", "not_in"):
+            out.append(("set", op, foreign))
+            for n in hits:
+                out.append(("set", op, foreign[:20] + (n,) + foreign[20:]))
     btw = typed if part != "e2e" else [n for n in typed if n in ("a", "ab", "b", "c", "gt_c", "nan", "b_minus")]
     for lo in btw:
         for hi in btw:
